@@ -191,6 +191,15 @@ CLAIMED["C04"] = (
     "compare-and-swap is assumed linearizable; goroutine bodies are not executed (go statements are call sites only).",
     "contract-based deductive verification (tracked ghosts at call sites, call-site obligations + SMT)", "6/C04")
 
+CLAIMED["C13"] = (
+    "Proof that the command cache's write() aborts the store command (cancel) whenever an output could not be read while the archive was being "
+    "written — on the early-return path and at exit (ghost flag set from fs.Walk's result, loop invariant 'no failure so far'); that readTar and "
+    "httpCache.retrieve report a retrieve that failed partway as a miss (error implies false). The same requirement on httpCache.write is a "
+    "RECORDED KNOWN FINDING: after a read error it lets the deferred Close calls end the gzip/tar stream normally; the obligation is proved "
+    "outside that region and a canary obligation keeps the region honest. Kernel-only: HTTP server and custom-command behaviour are outside.",
+    COMMON_NOTE + "fs.Walk is an assumed iteration contract; storeFile (tar writing) is opaque; cancel is an opaque callback.",
+    "contract-based deductive verification (tracked ghosts, return-site obligations, known-finding region + SMT)", "6/C13")
+
 NOT_APPLICABLE = {
     "C05": "liveness / whole-run exit status under all schedules: no per-call contract expresses it (safety fragment is under C04)",
     "C30": "OS process groups, signals and wall-clock bounds; goroutines and select are outside the sequential contract model",
